@@ -19,6 +19,7 @@ CONSTANTS
   MaxNet = 2
   W = {}
   MayTimeout = {a, b}
+  MayLink = {}
   Gen = FALSE
 SPECIFICATION Spec
 INVARIANTS ElectionSafety NoViolation NoStaleRead TypeOK
